@@ -93,6 +93,9 @@ func (g *G) Str() string {
 			return rng.Pick(r, []string{"hello", "world", "zap", "a b", "x=y", "日本語", "😀 ok"})
 		}
 		n := r.Intn(12)
+		if r.P(1, 16) {
+			n = rng.Pick(r, []int{63, 64, 255, 256, 257, 513, 1023, 1024, 1025, 2049})
+		}
 		b := make([]byte, n)
 		for i := range b {
 			b[i] = "abcdefghijklmnopqrstuvwxyzABCXYZ0123456789 _-./"[r.Intn(47)]
@@ -361,6 +364,10 @@ func (g *G) Bytes() []byte {
 	n := r.Intn(24)
 	if g.Opt.BigStrings && r.P(1, 20) {
 		n = 3000
+	}
+	if r.P(1, 12) {
+		// around chunk, pool-buffer and base64 group boundaries
+		n = rng.Pick(r, []int{47, 48, 49, 255, 256, 257, 511, 512, 513, 514, 1023, 1024, 1025, 1536, 4097})
 	}
 	b := make([]byte, n)
 	for i := range b {
